@@ -155,6 +155,7 @@ pub fn run(a: &Args) {
     st.rule = "the real tokio Framed::read() future polled by hand on a scripted transport under a paused clock and dropped at chosen Pending polls: every cancellation schedule of three short scripts whose read and write halves pend at every turn, and random sessions of 1..60 frames (40% keep-alives; all kinds; transient errors) with random not-ready turns on both halves and 10/50/100% of the pending polls dropping the future; oracle = same results as the uninterrupted run, which equal the per-frame expectation with whole replies; non-trivial = a future was dropped in a session with keep-alives whose write half pends".into();
     st.notes.push(format!("futures dropped: {} in total, up to {} in one session; pending polls seen: {}", cx.total_dropped, cx.max_dropped, cx.total_pending));
     st.sample("async C 0 f:030000:K:0 f:030703:O:1 | N D0103 N D0000 N D0103 N D0703 N Z | p a0 p a1 p p a0 | 0110100".into());
+    { let c2 = crate::conv::async_conversations("C19", a, &mut rng, &mut st, &mut out); st.distinct_nontrivial += c2.distinct.len() as u64; }
     out.finish(&st);
 }
 
